@@ -42,6 +42,7 @@ Print Assumptions resolve_safe.
    building never crashes or hangs ... *)
 Theorem build_wf : forall es fs, build es = Ok fs -> wf fs.
 Proof. exact build_wf_l. Qed.
+Print Assumptions build_wf.
 Theorem build_graceful : forall es, graceful (build es).
 Proof. exact build_graceful_l. Qed.
 Print Assumptions build_graceful.
@@ -178,8 +179,11 @@ Theorem base64_decode_in_bounds : forall m ip in_len op cap,
 Proof. exact base64_decode_graceful. Qed.
 Theorem hex_decode_in_bounds : forall s in_sz out_sz, in_sz <= N.of_nat (length s) -> graceful (hex_decode s in_sz out_sz).
 Proof. exact hex_decode_graceful. Qed.
-Print Assumptions base64_decode_in_bounds.
+Print Assumptions read_number_safe.
+Print Assumptions parse_uint_safe.
 Print Assumptions parse_sint_safe.
+Print Assumptions base64_decode_in_bounds.
+Print Assumptions hex_decode_in_bounds.
 
 (* ---- non-vacuity: a real (v7) archive member "f" of 3 bytes ---- *)
 Definition ex_hdr : list N :=
